@@ -63,6 +63,17 @@ CLAIMED["C06"] = (
     "makes Check return nil; termination is not proved.",
     "contract-based deductive verification (recursive closure contract, set-valued map invariants + SMT)", "6/C06")
 
+CLAIMED["C15"] = (
+    "Proof, per shard method (Set, LazySet, Get) taken as sequential code between Lock and Unlock, of an atomic specification over the abstract "
+    "view: add-if-absent / overwrite / lookup results, every other key untouched, Set/LazySet close exactly the wait channel registered for "
+    "that key and no other (so no waiter of another key is woken and the key's own waiters are woken), Get never hands out a closed channel "
+    "and reports first exactly when it created the placeholder, and the lock invariant (placeholder channels are open, allocated and "
+    "pairwise distinct) is preserved; plus a return-site obligation that ErrMap.GetOrSet publishes the first caller's result on every path. "
+    "Linearizability itself follows from the single-lock critical-section meta-theorem, which is trusted, not proved.",
+    COMMON_NOTE + "K and V are uninterpreted sorts; mutual exclusion of sync.RWMutex and the critical-section meta-theorem are trusted; "
+    "Get's read-locked fast path and write-locked slow path are verified as one sequential body; callbacks (f) are assumed not to touch the shard.",
+    "contract-based deductive verification (lock-invariant reasoning, ghost closed-channel set + SMT)", "6/C15")
+
 NOT_APPLICABLE = {
     "C05": "liveness / whole-run exit status under all schedules: no per-call contract expresses it (safety fragment is under C04)",
     "C30": "OS process groups, signals and wall-clock bounds; goroutines and select are outside the sequential contract model",
